@@ -1,4 +1,5 @@
 """C17 — statistics recorders: impl vs extracted model, conservation oracle, merge, wiring."""
+import os
 import itertools
 import vlib, rt
 from props.codec import proof_verdict
@@ -153,6 +154,37 @@ def run_c17(ctx):
             ctx.traces_validated += 1
             if len([s for s in segs if s]) >= 2:
                 ctx.nontriv("merge:" + rt.fnv64(line.encode()))
+    # ---- the published file: Reporter::report() on the merged map of the first cases, the zstd/CSV file it
+    # writes decoded again by the harness. Expected (report_spec, C17_translated_report_is_spec, with a file
+    # that can be created and records that serialise): one file holding every merged record exactly once when
+    # something was merged and a directory is configured, no file otherwise; the merged map itself untouched.
+    HEADER = "rfc_requests,classic_requests,invalid_requests,health_checks,rfc_responses_sent,classic_responses_sent,bytes_sent,failed_send_attempts,retried_send_attempts,first_seen,ip_addr"
+    nrep = 60 if not ctx.thorough else 400
+    rdir = os.path.join(vlib.BUILD, "report-%d" % os.getpid())
+    rcases = [(lim, segs, (i % 5 != 4)) for i, (lim, segs) in enumerate(mcases[:nrep])]
+    rlines = ["report %s %d %s" % (rdir if withdir else "-", lim, "|".join(",".join(s) for s in segs)) for lim, segs, withdir in rcases]
+    rout = vlib.run_impl(rlines)
+    ctx.evaluations += len(rlines)
+    for (lim, segs, withdir), lr, lmerge, line in zip(rcases, rout, impl, rlines):
+        rep = {"cmd": "report", "line": line[:8000], "impl": lr[:2500], "merge": lmerge[:1500]}
+        if lr.startswith("UNAVAILABLE"):
+            ctx.violation("tie", "the harness cannot drive Reporter::report any more (API drift)", rep); break
+        if lr.startswith(("PANIC", "CRASH", "HARNESS")):
+            ctx.violation("property", "Reporter::report panicked", rep); continue
+        d = dict(kv.split("=", 1) for kv in lr.split(" ") if "=" in kv)
+        merged = parse_out(lmerge).get("C")
+        want_files = "1" if (withdir and merged != "-") else "0"
+        want_rows = merged if want_files == "1" else "-"
+        if d.get("M") != merged or d.get("AFTER") != merged:
+            ctx.violation("property", "the reporter's merged map around report() is %s / %s, the merge of the same snapshots is %s" % (d.get("M"), d.get("AFTER"), merged), rep); continue
+        if d.get("FILES") != want_files or d.get("BAD") != "0" or d.get("NAMES") != "true":
+            ctx.violation("property", "report() left %s file(s) (undecodable parts: %s), expected %s" % (d.get("FILES"), d.get("BAD"), want_files), rep); continue
+        if d.get("R") != want_rows or (want_files == "1" and d.get("HEADER") != HEADER):
+            ctx.violation("property", "the published statistics file holds %s (header %s) but the merged per-client counters are %s" % (d.get("R"), d.get("HEADER"), want_rows), rep); continue
+        ctx.traces_validated += 1
+        if want_files == "1" and merged.count(";") >= 1:
+            ctx.nontriv("report:" + rt.fnv64(line.encode()))
+    ctx.count("published_files_checked", len(rlines))
     # ---- wiring: in-process server traffic, recorder read back (aggregated and per-client)
     eng = srvmod.Engine(ctx, "C17")
     for cs in (0, 1):
